@@ -59,6 +59,99 @@ def build_shape(rng):
     return g, inputs, run_map, {"depth": depth, "kind": kind}
 
 
+def run_history(steps, seed):
+    """Several top-level calls awaited one after the other IN ONE asyncio task (what a server handler does):
+    steps = [(graph, inputs, k, map)], returns per step (status or error class, peak in flight)."""
+    import asyncio
+    import random as _r
+    from hypergraph import AsyncRunner
+
+    async def go():
+        out = []
+        runner = AsyncRunner()
+        for (g, inputs, k, mp) in steps:
+            rr = pdl.RealRun()
+            rnd = _r.Random(seed)
+            ts = pdl.Turnstile(lambda name: rnd.random(), hold=True)
+            G = pdl.build_graph(g, rr.env(ts), True)
+            ts.task = asyncio.ensure_future(ts.controller())
+            try:
+                kw = {"max_concurrency": k, "error_handling": "continue"}
+                if mp:
+                    res = await asyncio.wait_for(runner.map(G, dict(inputs), map_over=mp["over"], map_mode="zip", **kw), timeout=30)
+                    st = [r.status.value for r in res]
+                else:
+                    res = await asyncio.wait_for(runner.run(G, dict(inputs), max_iterations=20, **kw), timeout=30)
+                    st = res.status.value
+            except Exception as e:  # noqa: BLE001
+                st = "raised:" + type(e).__name__
+            finally:
+                ts.stop = True
+                await ts.task
+            out.append((st, ts.peak))
+        return out
+    return asyncio.run(go())
+
+
+def history_part(ctx, dist):
+    """A limited run that fails (a node raises) or whose item fails in output unpacking must not change the bound of
+    what follows: later calls in the same task, and the remaining items of the same map."""
+    rng = ctx.rng
+    n = 0
+    for _ in range(ctx.n(40, 400)):
+        width = rng.randint(2, 4)
+        k1, k2 = rng.randint(2, 4), rng.randint(1, 2)
+        # first call: `width` leaves, one of them raising (continue mode -> FAILED result), or an infinite-loop error
+        nodes = wide_graph(rng, "f", width, wrap_p=0.0)
+        bad = rng.choice(nodes[:-1])
+        bad["fn"] = ["raise", 500]
+        g1 = {"nodes": nodes, "bound": {}, "entrypoints": None, "selected": None, "name": "first_g"}
+        g2 = {"nodes": wide_graph(rng, "s", width, wrap_p=0.0), "bound": {}, "entrypoints": None, "selected": None, "name": "second_g"}
+        steps = [(g1, {"x": 1}, k1, None), (g2, {"x": 2}, k2, None)]
+        res = run_history(steps, rng.randint(0, 10**6))
+        n += 2
+        case = {"history": [{"graph": g1, "max_concurrency": k1, "fails": bad["name"]}, {"graph": g2, "max_concurrency": k2}]}
+        (st1, p1), (st2, p2) = res
+        dist["history"] = dist.get("history", 0) + 1
+        if p1 > k1 or p2 > k2:
+            ctx.violation("oracle", f"after a FAILED run with max_concurrency={k1}, the next call in the same task with max_concurrency={k2} "
+                          f"had {p2} bodies in flight (first call: {p1})", case=case)
+        elif p2 != min(k2, width):
+            ctx.violation("harness", f"history: second call reached {p2} of min({k2},{width}) open bodies", case=case)
+        if st2 != "completed":
+            ctx.violation("oracle", f"the call after a failed one ended {st2}", case=case)
+        # a map in continue mode where one item fails in OUTPUT UNPACKING (the body returned; the permit must be given back once)
+        fan = rng.randint(3, 5)
+        k = rng.randint(1, 2)
+        split = {"name": "split", "kind": "func", "inputs": ["x"], "outputs": ["a", "b"], "emit": [], "wait_for": [], "defaults": {},
+                 "fn": ["short_if_ge", 100, ["sym", "split"]]}
+        use = F("use", ["a", "b"], ["r"])
+        inner_nodes = [split, use] + [F(f"l{j}", ["x"], [f"lo{j}"]) for j in range(rng.randint(1, 3))]
+        rng.shuffle(inner_nodes)
+        inner = {"nodes": inner_nodes, "bound": {}, "entrypoints": None, "selected": None, "name": "mapper_g"}
+        gn = {"name": "mapper", "kind": "graph", "graph": inner, "inputs": [], "outputs": [], "in_hist": [], "out_hist": [],
+              "map_over": ["x"], "map_mode": "zip", "map_continue": True}
+        g3 = {"nodes": [gn], "bound": {}, "entrypoints": None, "selected": None, "name": "outer_g"}
+        xs = [rng.randint(0, 3) for _ in range(fan)]
+        xs[rng.randrange(fan - 1)] = 100        # not the last item: something still has to run afterwards
+        use_map_node = rng.random() < 0.7
+        if use_map_node:
+            res3 = run_history([(g3, {"x": xs}, k, None)], rng.randint(0, 10**6))
+        else:
+            res3 = run_history([(inner, {"x": xs}, k, {"over": ["x"]})], rng.randint(0, 10**6))
+        n += 1
+        (st3, p3), = res3
+        dist["arity_fault"] = dist.get("arity_fault", 0) + 1
+        case3 = {"graph": g3 if use_map_node else inner, "run": {"x": xs, "max_concurrency": k, "error_handling": "continue", "top_level_map": not use_map_node}}
+        if p3 > k:
+            ctx.violation("oracle", f"max_concurrency={k}: {p3} bodies in flight in a tolerant map after an item failed in output unpacking", case=case3)
+        if use_map_node and st3 != "completed":
+            ctx.violation("oracle", f"a mapping node in continue mode with one item failing in output unpacking ended {st3}", case=case3)
+        if not use_map_node and (not isinstance(st3, list) or st3.count("failed") != 1 or st3.count("completed") != fan - 1):
+            ctx.violation("oracle", f"map (continue) with one item failing in output unpacking returned statuses {st3}", case=case3)
+    return n
+
+
 def outcome(obs):
     if obs["status"] == "mapped":
         return [(r["status"], r["values"], r["error"]) for r in obs["results"]]
@@ -107,11 +200,13 @@ def run(ctx):
                 nontrivial.add((canon(g["nodes"]), k))
         if len(samples) < 2:
             samples.append({"meta": md, "inputs": inputs, "unlimited_peak": width})
+    n_eval += history_part(ctx, dist)
     ctx.coverage.update(
         evaluations=n_eval, distinct_nontrivial=len(nontrivial),
         rule="graphs of 2-4 independent leaves + join, nested 0-3 levels with further parallel leaves at each level (20% of the leaves are plain "
              "functions returning a coroutine), run directly, through runner.map (fan-out 2-5) or through a mapping node; k in 1..4 (1..3 "
-             "quick); bodies held open by an adversarial scheduler; non-trivial = (shape, k) with unlimited width > k",
+             "quick); bodies held open by an adversarial scheduler; plus histories awaited in ONE task (a limited run that fails, then a run with a "
+             "smaller limit) and maps in continue mode with an item failing in output unpacking; non-trivial = (shape, k) with unlimited width > k",
         distribution=dist, samples=samples)
     ctx.assumptions += ["asyncio.Semaphore wake-ups and ContextVar inheritance are runtime behaviour: exercised, not modelled"]
 
